@@ -173,9 +173,17 @@ impl Transform {
         // Check if the program is runnable, fail fast if it is not.
         // This must launch the program exactly as given, the same way as it is launched later,
         // and not a program of the same name found elsewhere.
-        match Command::new(&parsed[0]).spawn() {
+        // The program must not get our standard streams, otherwise it could consume the input
+        // of fclones (e.g. the list of paths given with `--stdin`) or write into the report.
+        let probe = Command::new(&parsed[0])
+            .stdin(Stdio::null())
+            .stdout(Stdio::null())
+            .stderr(Stdio::null())
+            .spawn();
+        match probe {
             Ok(mut child) => {
                 let _ignore = child.kill();
+                let _ignore = child.wait();
             }
             Err(e) => {
                 return Err(io::Error::new(
